@@ -1,11 +1,16 @@
 N = {"quick": 300, "thorough": 10000}
 EXHAUSTIVE = {"quick": False, "thorough": True}
-RULE = ("random histories (1-4 exchanges, length <= 40/80, notice rate 5/15/40 %) over {mkt,acc,mktre,accre} x exchange, "
-        "driven through the real Engine::process; thorough additionally enumerates every history of length <= 5 over 2 exchanges "
+RULE = ("random histories (1-5 exchanges, length <= 40/80, notice rate 5/15/40 %) over {mkt,acc,mktre,accre} x exchange, "
+        "driven through the real Engine::process; plus a separately seeded family (N/3 cases, ids d...) with 1-10 exchanges, trading "
+        "enabled or disabled, every DataKind (trade, l1, book snapshot / empty book update, candle, liquidation) and every "
+        "AccountEventKind (trade, balance snapshot, full account snapshot empty / non-empty, order snapshot, cancel response) as the item, "
+        "a warm-up that heals every link in shuffled order (60 %), single-kind cases (33 %) and two-exchange focus (20 %); "
+        "thorough additionally enumerates every history of length <= 5 over 2 exchanges "
         "(8 symbols, 37 449 histories). A case is distinct by the SHA-1 of its op lines and non-trivial when the implementation's "
         "observation (global, links, disconnect log) changes at least once")
 ASSUMPTIONS = [
     "at least one exchange (n >= 1); with n = 0 no event can be routed and global stays Reconnecting",
+    "at most 10 exchanges in the harness (labels 0..9 = ten distinct ExchangeIds; `init n` with n > 10 is `bad-op` on both sides); the theorems are for every n",
     "every event names an exchange the engine was built with (the code panics otherwise; the harness and model both report `panic`)",
     "ExchangeId lookups and ExchangeIndex lookups address the same slot (distinct exchange ids, C11)",
 ]
